@@ -2,7 +2,6 @@ package main
 
 import (
 	"fmt"
-	"go/ast"
 	"go/types"
 	"sort"
 	"strings"
@@ -100,73 +99,13 @@ func runC22(c *Ctx) {
 			return ok && Expr(res(rt.Results[0])) != "n.OriginalRDNS"
 		}})
 
-	// ---- reader table (typed syntax)
-	fd, p := w.FuncDecl(pkPKIX, "Name.FillFromRDNSequence")
+	// ---- reader table: from the SSA, so that an if/else-if chain and a switch read the same
+	fd, _ := w.FuncDecl(pkPKIX, "Name.FillFromRDNSequence")
 	if fd == nil {
 		c.Undecided("R-TABLE", fnFillRDN, "declaration", "-", "not found")
 		return
 	}
-	reader := map[string]map[string]bool{} // oid -> fields
-	addR := func(oid, field string) {
-		if reader[oid] == nil {
-			reader[oid] = map[string]bool{}
-		}
-		reader[oid][field] = true
-	}
-	assignedFields := func(stmts []ast.Stmt) []string {
-		var out []string
-		for _, s := range stmts {
-			as, ok := s.(*ast.AssignStmt)
-			if !ok {
-				continue
-			}
-			for _, l := range as.Lhs {
-				if se, ok := l.(*ast.SelectorExpr); ok && types.ExprString(se.X) == "n" {
-					// the value assigned must be `value` or append(n.F, value)
-					rhs := types.ExprString(as.Rhs[0])
-					if rhs == "value" || rhs == "append(n."+se.Sel.Name+", value)" {
-						out = append(out, se.Sel.Name)
-					}
-				}
-			}
-		}
-		return out
-	}
-	for _, arms := range SwitchesOn(p, fd.Body, "t[3]") {
-		for _, arm := range arms {
-			for _, cs := range arm.Cases {
-				if cs.Const == nil {
-					continue
-				}
-				for _, f := range assignedFields(arm.Body) {
-					addR("2.5.4."+cs.Const.ExactString(), f)
-				}
-			}
-		}
-	}
-	// the prefix test guarding the switch: len(t)==4 && t[0]==2 && t[1]==5 && t[2]==4
-	okPrefix := false
-	ast.Inspect(fd.Body, func(n ast.Node) bool {
-		is, ok := n.(*ast.IfStmt)
-		if !ok {
-			return true
-		}
-		cond := types.ExprString(is.Cond)
-		if cond == "len(t) == 4 && t[0] == 2 && t[1] == 5 && t[2] == 4" {
-			okPrefix = true
-		}
-		if call, ok := is.Cond.(*ast.CallExpr); ok {
-			if se, ok := call.Fun.(*ast.SelectorExpr); ok && se.Sel.Name == "Equal" && types.ExprString(se.X) == "t" && len(call.Args) == 1 {
-				tv := evalCell(p, call.Args[0])
-				if oid := w.OIDKey(p, tv); oid != "" {
-					for _, f := range assignedFields(is.Body.List) {
-						addR(oid, f)
-					}
-				}
-			}
-		}
-		return true
-	})
+	reader, okPrefix := nameReaderTable(w)
 	c.Check(okPrefix, "R-TABLE", fnFillRDN, "the 2.5.4.N switch is guarded by the exact four-arc prefix test", c.W.Pos(fd.Pos()), "")
 	var oids []string
 	for o := range reader {
